@@ -50,7 +50,8 @@ CONTEXTS = {
     "chunk": [(b"", b""), (b"5", b""), (b"", b"5"), (b"5;a", b""), (b"5;a=", b""), (b'5;a="', b'"')],
     "hline": [(b"", b""), (b"X-A:", b""), (b"X-A", b": v"), (b"X-A: v", b"")],
     "rline": [(b"", b""), (b"GET / HTTP/1.1", b""), (b"", b"GET / HTTP/1.1"), (b"GET /", b" HTTP/1.1"), (b"GET ", b" HTTP/1.1"),
-              (b"GET / HTTP/1.", b""), (b"GET / HTTP/", b".1")],
+              (b"GET / HTTP/1.", b""), (b"GET / HTTP/", b".1"), (b"GET / HTTP/1", b"1"), (b"GET / HTTP", b"1.1"),
+              (b"GET / ", b"/1.1"), (b"GET /", b"HTTP/1.1")],
 }
 
 
